@@ -491,7 +491,7 @@ def run(tier: str) -> int:
                        "the structure of the text is exhaustive"]
     PER_CONFIG["s"] = 8.0 if tier == "quick" else 150.0
     _random.Random(seed()).shuffle(items)
-    for status, item, res in pmap(worker, items, budget_s=420 if tier == "quick" else 3000, chunk=1,
+    for status, item, res in pmap(worker, items, budget_s=420 if tier == "quick" else 720, chunk=1,
                                   item_timeout=PER_CONFIG["s"] * 2 + 120):
         if status == "ok":
             if "draw_bound_cut" in res:
